@@ -24,6 +24,8 @@ _do_get:
                                                   (block=True: the Empty is the *timeout* of the
                                                    wait loop, which re-tests `_empty()` under the
                                                    mutex before giving up)
+                                                  gq w --cancel--> idle  (AsyncAdaptedQueuePool:
+                                                   CancelledError out of `await queue.get()`)
   if use_overflow and self._overflow >= max:      ge w --rv v--> ge1 w v ;  ¬useOv: ge w --ci--> i0
       if not wait: return self._do_get()          ge1 w v --cg--> g0     v ≥ max ∧ ¬w
       else: raise TimeoutError                    ge1 w v --to--> idle   v ≥ max ∧ w
@@ -75,7 +77,7 @@ deriving Repr, DecidableEq
 inductive Label
   | cg | rv (v : Int) | rmw (v w : Int) | wv (w : Int) | qg (b : Bool) | pop (r : Rec)
   | qe | to | ci | cd | la | lr | cr (r : Rec) | cf | cp (r : Rec) | put (r : Rec)
-  | qf | cl | qset
+  | qf | cl | qset | cancel
 deriving Repr, DecidableEq
 
 /-- the state shared by all threads -/
@@ -129,6 +131,9 @@ def trans (c : Cfg) (s : Shared) (t : Nat) : Pc → Label → Option (Pc × Shar
     | some rest => some (.idle, { s with queue := rest, out := r :: s.out })
     | none => none
   | .gq w, .qe => if s.queue = [] then some (.ge w, s) else none
+  -- asyncio only: the task is cancelled while it awaits the queue; CancelledError is not
+  -- `Empty`, so it leaves _do_get without touching anything
+  | .gq _, .cancel => some (.idle, s)
   | .ge w, .rv v => if c.useOv ∧ v = s.overflow then some (.ge1 w v, s) else none
   | .ge _, .ci => if ¬ c.useOv then some (.i0, s) else none
   | .ge1 w v, .cg => if c.maxOv ≤ v ∧ w = false then some (.g0, s) else none
